@@ -34,6 +34,9 @@ REQUIRED_COUNTERS = {t: ['admission_sessions', 'mode_sequence', 'mode_free', 've
                      for t in ('quick', 'thorough')}
 
 
+# areas of the pure core whose TRANSLATION (Generated/PyCore.lean) is run next to the real code in this check
+TRANSLATED_AREAS = ('msg',)
+
 def cases(ctx):
     return []
 
